@@ -157,8 +157,17 @@ const miniSpecials = `{
 }`
 const miniSpecialsInput = "1|plain\n2|C:\\share\\u0026\\readme.txt\n3|a\\u003cb \\u003e c\n4|<tag attr='x'>&amp;</tag>\n5|tab\there \x01 ctl\n6|\u2028 sep \u2029 \U0001F600\n7|back\\slash \\\\ double\n"
 
+// csv2 with replace_double_quotes: double quotes are ordinary characters that arrive as single quotes
+const miniCSV2RDQ = `{
+ "parser_settings": {"version": "omni.2.1", "file_format_type": "csv2"},
+ "file_declaration": {"delimiter": ",", "replace_double_quotes": true, "records": [{"name": "R", "columns": [{"name": "id", "index": 1}, {"name": "note", "index": 2}]}]},
+ "transform_declarations": {"FINAL_OUTPUT": {"object": {"id": {"xpath": "id"}, "note": {"xpath": "note"}}}}
+}`
+const miniCSV2RDQInput = "1,plain\n2,say \"hi\"\n3,\"quoted\n4,5\" wide\n5,\"last\" line\n"
+
 func miniSamples() []Sample {
 	return []Sample{
+		{"mini/csv2-replace-double-quotes", "csv2", []byte(miniCSV2RDQ), []byte(miniCSV2RDQInput)},
 		{"mini/specials", "csv", []byte(miniSpecials), []byte(miniSpecialsInput)},
 		{"mini/xml-trailer", "xml", []byte(miniXML), []byte(miniXMLTrailerInput)},
 		{"mini/json-trailing-scalar", "json", []byte(miniJSON), []byte(miniJSONTrailInput)},
